@@ -68,6 +68,18 @@ RULES = {
         "read in another one (r[j*rows+i] = x[i*cols+j] overwrites its own source whenever r == x, square or not); such loops must read "
         "from the temporary copy (decided by enumerating the index sequences for small shapes under r == x: an element stored through r and later "
         "loaded through x). Broken -> in-place transposition mirrors one triangle into the other.", 1),
+    "C02.E1.transpose-shape": (
+        "every normal exit of T::transpose(const T'& x) leaves *this with rows = x.columns() and columns = x.rows(): established on each path "
+        "by moving in a result constructed with (rows_in <- x.columns(), columns_in <- x.rows()), by accessor assignments `_rows() = x.columns()`, "
+        "or by a dominating equality test `rows() == x.columns() && columns() == x.rows()` (re-use of an array that already has the transposed "
+        "shape). Broken (re-use decided on size() == x.size() alone) -> a re-used target of equal length keeps its old shape.", 8),
+    "C02.E3.bucket-order": (
+        "counting-sort fill (transpose): a store A[j] = v of the variable v of an enclosing loop into an index array, at a position j taken "
+        "from a per-bucket cursor C[l] that the same loop body advances, writes the keys of one bucket at positions that move in the "
+        "direction of the cursor update while the keys move in the direction of the loop over v: both directions must agree (forward fill "
+        "++C[l] with ascending v, or back fill --C[l] with descending v), otherwise the column indices within each row of the result are "
+        "descending. Broken -> unsorted column indices: element access and operator== of the transposed matrix fail for every column with "
+        "two or more entries.", 2),
     "C02.alias-safe-members": (
         "a member f(const T& x) of T that hands this's and x's arrays to an alias-aware kernel (one that branches on its two pointer "
         "parameters being equal, i.e. the call with &x == this is provided for) and has no `this == &x` guard must itself be alias safe: no "
@@ -671,6 +683,254 @@ def alias_kernel_rules(ck, fam, facts, seen_fail):
         if not ok:
             seen_fail.add(("alias", key))
         ck.ob("C02.alias-safe-transpose", "%s/aliased-run" % key, ok, det, fn.file, fn.line, sample={"function": fn.full, "detail": det})
+
+
+# -------------------------------------------------------------------------------------------------
+# E3 (light): ordering clause of the counting-sort fill
+# -------------------------------------------------------------------------------------------------
+
+def bucket_order_rules(ck, fam, seen_fail):
+    for fn in fam.functions():
+        if fn.body is None:
+            continue
+        fors = [n for n in fn.nodes() if n.get("k") in ("For", "While")]
+        if not fors:
+            continue
+        it = None
+
+        def contains(a, b):
+            return any(x is b for x in walk(a))
+
+        def loop_dir(f):
+            """(decl id of the loop variable, +1 / -1) of a loop that steps its variable by one per iteration"""
+            if f.get("k") != "For":
+                return None
+            init = f.get("init")
+            if init is None or init.get("k") != "Decl" or len(init.get("vars", [])) != 1:
+                return None
+            v = init["vars"][0]["d"]
+            steps = []
+            for x in walk({"k": "Block", "s": [y for y in (f.get("inc"), f.get("body")) if y is not None]}):
+                if x.get("k") == "Un" and x.get("op") in ("++", "--") and L.unwrap(x["e"]).get("k") == "Ref" and L.unwrap(x["e"]).get("d") == v:
+                    steps.append(1 if x["op"] == "++" else -1)
+                if x.get("k") == "Assign" and L.unwrap(x["lhs"]).get("k") == "Ref" and L.unwrap(x["lhs"]).get("d") == v:
+                    steps.append(0)
+            if len(steps) == 1 and steps[0] != 0:
+                return v, steps[0]
+            return None
+
+        def cursor_of(e):
+            """(cursor array decl id, direction or None) if e reads a cursor slot C[l], possibly stepping it"""
+            e = L.unwrap(e)
+            while e.get("k") in ("Construct", "TempObj") and len(e.get("a", [])) == 1:
+                e = L.unwrap(e["a"][0])
+            if e.get("k") == "Un" and e.get("op") in ("++", "--"):
+                x = L.unwrap(e["e"])
+                if x.get("k") == "Index" and L.unwrap(x["b"]).get("k") == "Ref":
+                    return L.unwrap(x["b"])["d"], (1 if e["op"] == "++" else -1), e
+            if e.get("k") == "Index" and L.unwrap(e["b"]).get("k") == "Ref":
+                return L.unwrap(e["b"])["d"], None, e
+            return None
+
+        for store in fn.nodes():
+            if store.get("k") != "Assign" or store.get("op") != "=":
+                continue
+            lhs = L.unwrap(store["lhs"])
+            if lhs.get("k") != "Index" or L.unwrap(lhs["b"]).get("k") != "Ref":
+                continue
+            chain = [f for f in fors if contains(f.get("body") or {}, store)]
+            if not chain:
+                continue
+            # the stored key: a loop variable of an enclosing loop (through casts)
+            rhs = L.unwrap(store["rhs"])
+            while rhs.get("k") in ("Construct", "TempObj") and len(rhs.get("a", [])) == 1:
+                rhs = L.unwrap(rhs["a"][0])
+            if rhs.get("k") != "Ref" or rhs.get("dk") != "local":
+                continue
+            dirs = {d[0]: d[1] for d in (loop_dir(f) for f in chain) if d is not None}
+            if it is None:
+                it = L.Interp(fam, fn)
+            # position: a cursor slot (directly, or through a const local)
+            idx = L.unwrap(lhs["idx"])
+            if idx.get("k") == "Ref" and idx.get("dk") == "local" and idx.get("d") in it.localdefs and not it.reassigned(idx["d"]):
+                idx = it.localdefs[idx["d"]]
+            cur = cursor_of(idx)
+            if cur is None:
+                continue
+            cd, cdir, cnode = cur
+            innermost = min(chain, key=lambda f: sum(1 for _ in walk(f)))
+            if cdir is None:
+                # `j = C[l]; ...; ++C[l];` - the step is a separate statement of the same loop body
+                steps = []
+                for x in walk(innermost.get("body") or {}):
+                    if x.get("k") == "Un" and x.get("op") in ("++", "--"):
+                        y = L.unwrap(x["e"])
+                        if y.get("k") == "Index" and L.unwrap(y["b"]).get("k") == "Ref" and L.unwrap(y["b"])["d"] == cd:
+                            steps.append(1 if x["op"] == "++" else -1)
+                if len(steps) != 1:
+                    continue
+                cdir = steps[0]
+            key = L.fkey(fn)
+            sub = "fill:%s" % ("col_ind" if True else "")
+            if rhs["d"] not in dirs:
+                all_loop_vars = {f["init"]["vars"][0]["d"] for f in chain if f.get("k") == "For" and f.get("init") is not None and f["init"].get("k") == "Decl" and len(f["init"]["vars"]) == 1}
+                if rhs["d"] in all_loop_vars:
+                    ck.ob("C02.E3.bucket-order", "%s/%s" % (key, sub), True, "undecided: the loop over %s does not step its variable by one per iteration in a recognisable way" % rhs["n"], fn.file, store.get("l"), trivial=True)
+                continue
+            vdir = dirs[rhs["d"]]
+            # a later sort of the filled array would repair the order: look for calls receiving the array after the loop nest
+            arr = L.unwrap(lhs["b"])["d"]
+            outer = max(chain, key=lambda f: sum(1 for _ in walk(f)))
+            later_sort = any(is_call(x) and "sort" in str(x.get("callee", "")).lower() and x.get("i", 0) > outer.get("i", 0)
+                             and any(y.get("k") == "Ref" and y.get("d") == arr for a in (x.get("a") or []) for y in walk(a)) for x in fn.nodes())
+            if later_sort:
+                ck.ob("C02.E3.bucket-order", "%s/%s" % (key, sub), True, "undecided: the filled array is handed to a sort afterwards", fn.file, store.get("l"), trivial=True)
+                continue
+            ok = vdir == cdir
+            det = "keys %s (loop variable, %s) are stored at positions taken from the bucket cursor %s, which is stepped %s" % (
+                rhs["n"], "ascending" if vdir > 0 else "descending", render(cnode)[:40], "forwards" if cdir > 0 else "backwards")
+            if not ok:
+                det += ": within every bucket the stored indices come out in descending order (a back fill needs the source rows in descending order, a forward fill in ascending order)"
+                if ("bucket", key, sub) in seen_fail:
+                    continue
+                seen_fail.add(("bucket", key, sub))
+            ck.ob("C02.E3.bucket-order", "%s/%s" % (key, sub), ok, det, fn.file, store.get("l"), sample={"function": fn.full, "detail": det})
+
+
+# -------------------------------------------------------------------------------------------------
+# E1 on paths: the shape every exit of transpose(x) establishes
+# -------------------------------------------------------------------------------------------------
+
+def transpose_shape_rules(ck, fam, seen_fail):
+    for fn in fam.functions():
+        if fn.name != "transpose" or len(fn.params) != 1 or fn.body is None or fn.d.get("static"):
+            continue
+        if not fam.is_family_type(fn.type(fn.params[0]["t"])):
+            continue
+        it = L.Interp(fam, fn)
+        xo = "%s#%s" % (fn.params[0]["n"], fn.params[0]["d"])
+        key = L.fkey(fn)
+        exits = []          # (state, line)
+        locs = {}           # local matrix decl id -> (rows role, cols role)
+
+        def dim_of(e):
+            r = role_of(it, e)
+            if r is None:
+                return "?"
+            if r.name in DIM_ROLES and r.obj == xo:
+                return r.name + "(x)"
+            if r.name in DIM_ROLES and r.obj == "this":
+                return "this." + r.name
+            return "?"
+
+        def ctor_dims(c):
+            if c.get("k") in ("Construct", "TempObj") and L.short(c.get("ccls", "")) in fam.classes and c.get("pn") and "rows_in" in c["pn"] and "columns_in" in c["pn"]:
+                args = dict(zip(c["pn"], c.get("a") or []))
+                return dim_of(args["rows_in"]), dim_of(args["columns_in"])
+            return None
+
+        def refine(c, st, truth):
+            c = L.unwrap(c)
+            if c.get("k") == "Ref" and c.get("dk") == "local" and c.get("d") in it.localdefs and not it.reassigned(c["d"]):
+                return refine(it.localdefs[c["d"]], st, truth)
+            if c.get("k") == "Un" and c.get("op") == "!":
+                return refine(c["e"], st, not truth)
+            if c.get("k") == "Bin" and ((c.get("op") == "&&" and truth) or (c.get("op") == "||" and not truth)):
+                return refine(c["rhs"], refine(c["lhs"], st, truth), truth)
+            if c.get("k") == "Bin" and ((c.get("op") == "==" and truth) or (c.get("op") == "!=" and not truth)):
+                a, b = role_of(it, c["lhs"]), role_of(it, c["rhs"])
+                for p_, q_ in ((a, b), (b, a)):
+                    if p_ and q_ and p_.obj == "this" and q_.obj == xo and p_.name in DIM_ROLES and q_.name in DIM_ROLES:
+                        st = dict(st)
+                        st[p_.name] = q_.name + "(x)"
+            return st
+
+        def touches_shape(n):
+            for x in walk(n):
+                if x.get("k") == "Assign" and L.unwrap(x["lhs"]).get("k") == "MCall" and L.unwrap(x["lhs"]).get("n", "").lstrip("_") in DIM_ROLES:
+                    return True
+                if x.get("k") == "MCall" and not x.get("cconst") and L.short(x.get("ccls", "")) in fam.classes and (x.get("obj") is None or L.obj_id(x.get("obj")) == "this") \
+                        and x.get("n", "").lstrip("_") not in DIM_ROLES:
+                    if not (fam.callee_fn(fn, x) is not None and it.summary(fam.callee_fn(fn, x)) == "identity"):
+                        return True
+            return False
+
+        def run(n, sts):
+            """sts: list of path states (dicts); returns the list of states that fall through"""
+            if n is None or not sts:
+                return sts
+            k = n.get("k")
+            if k == "Block":
+                for s_ in n.get("s", []):
+                    sts = run(s_, sts)
+                    if not sts:
+                        return []
+                return sts
+            if k == "Decl":
+                for v in n.get("vars", []):
+                    d = ctor_dims(v.get("init") or {})
+                    if d:
+                        locs[v["d"]] = d
+                return sts
+            if k == "If":
+                a = run(n.get("then"), [refine(n["c"], st, True) for st in sts])
+                b = [refine(n["c"], st, False) for st in sts]
+                if n.get("else") is not None:
+                    b = run(n["else"], b)
+                out = []
+                for st in a + b:
+                    if st not in out:
+                        out.append(st)
+                return out[:16]
+            if k == "Return":
+                for st in sts:
+                    exits.append((st, n.get("l")))
+                return []
+            if k in ("For", "While", "Do", "ForRange", "Switch", "Try"):
+                if touches_shape(n):
+                    return [{"rows": "?", "columns": "?"}]
+                return sts
+            if is_call(n) and n.get("noreturn"):
+                return []
+            if k == "Assign":
+                l = L.unwrap(n["lhs"])
+                if l.get("k") == "MCall" and (l.get("obj") is None or L.obj_id(l.get("obj")) == "this") and l.get("n", "").lstrip("_") in DIM_ROLES:
+                    out = []
+                    for st in sts:
+                        st = dict(st)
+                        st[l["n"].lstrip("_")] = dim_of(n["rhs"])
+                        out.append(st)
+                    return out
+                return sts
+            if k == "MCall" and (n.get("obj") is None or L.obj_id(n.get("obj")) == "this") and L.short(n.get("ccls", "")) in fam.classes and not n.get("cconst"):
+                if n.get("n") == "move" and n.get("a"):
+                    a = L.unwrap(n["a"][0])
+                    d = ctor_dims(a) or (locs.get(a.get("d")) if a.get("k") == "Ref" else None)
+                    return [dict(zip(DIM_ROLES, d)) if d else {"rows": "?", "columns": "?"}]
+                callee = fam.callee_fn(fn, n)
+                if callee is not None and it.summary(callee) == "identity":
+                    return sts
+                return [{"rows": "?", "columns": "?"}]
+            return sts
+
+        for st in run(fn.body, [{"rows": "old", "columns": "old"}]):
+            exits.append((st, fn.end))
+        want = {"rows": "columns(x)", "columns": "rows(x)"}
+        for n_exit, (st, line) in enumerate(exits):
+            for r in DIM_ROLES:
+                got = st[r]
+                sub = "exit-shape"
+                if got.startswith("?"):
+                    ck.incomplete("C02.E1.transpose-shape", "%s: %s of *this at the exit at line %s is set by a construct the check does not model" % (key, r, line))
+                    continue
+                ok = got == want[r]
+                det = "exit at line %s: %s of *this is %s (required %s of the source)" % (
+                    line, r, {"old": "never established on this path (no result moved in, no assignment, no dominating test %s() == x.%s())" % (r, swap(r))}.get(got, got), swap(r))
+                if not ok:
+                    if ("tshape", key, r) in seen_fail:
+                        continue
+                    seen_fail.add(("tshape", key, r))
+                ck.ob("C02.E1.transpose-shape", "%s/%s/%s" % (key, sub, r), ok, det, fn.file, line, sample={"function": fn.full, "detail": det})
 
 
 # -------------------------------------------------------------------------------------------------
@@ -1563,6 +1823,8 @@ def run(tier):
         extent_rules(ck, fam, seen_fail)
         banded_rules(ck, fam, fx, roles_tab, seen_fail)
         local_array_rules(ck, fam, seen_fail)
+        transpose_shape_rules(ck, fam, seen_fail)
+        bucket_order_rules(ck, fam, seen_fail)
         offset_store_rules(ck, fam, seen_fail)
         cscr_kind_rules(ck, fam, fx, seen_fail)
         if is_driver_tu(fx):
